@@ -240,8 +240,13 @@ fn rotate(
             }
         }
 
+        #[cfg(feature = "verif_hooks")]
+        crate::verif_hooks::rotate_point(i)?;
         move_file(src.as_ref(), dst.as_ref())?;
     }
+
+    #[cfg(feature = "verif_hooks")]
+    crate::verif_hooks::rotate_point(u32::MAX)?;
 
     compression.compress(&file, &dst_0).map_err(|e| {
         println!("err compressing: {:?}, dst: {:?}", file, dst_0);
